@@ -493,11 +493,17 @@ def _match_unicode_identifier(
     # This prevents '<->' (tension operator alias) from being consumed.
     if end < len(content) and content[end] == "<":
         qualifier_start = end + 1
+        # Empty qualifier NAME<> is the canonical form the parser/emitter produce for NAME[]
+        if qualifier_start < len(content) and content[qualifier_start] == ">":
+            end = qualifier_start + 1
         # Qualifier must start with a valid identifier start char
-        if qualifier_start < len(content) and _is_valid_identifier_start(content[qualifier_start]):
+        elif qualifier_start < len(content) and _is_valid_identifier_start(content[qualifier_start]):
             qualifier_end = qualifier_start + 1
-            # Consume remaining qualifier characters (identifier body chars)
-            while qualifier_end < len(content) and _is_valid_identifier_char(content[qualifier_end]):
+            # Consume remaining qualifier characters (identifier body chars); commas separate
+            # the arguments of the canonical multi-argument form NAME<A,B> (from NAME[A,B])
+            while qualifier_end < len(content) and (
+                _is_valid_identifier_char(content[qualifier_end]) or content[qualifier_end] == ","
+            ):
                 qualifier_end += 1
             # Strip trailing hyphens from qualifier (same as identifier rule)
             while qualifier_end > qualifier_start + 1 and content[qualifier_end - 1] == "-":
